@@ -330,6 +330,8 @@ NUM_SHAPES = [
     ("conv_in_conv", "INT( INT( V ) / 2 )"),
     ("conv_elem", "M( INT( V ) )"),
     ("dev", "JOYSTK( 0 )"),
+    ("conv_neg", "INT( - V / 2 )"),
+    ("conv_pos", "INT( + V )"),
     ("two_conv", "INT( V ) + VAL( V$ )"),
     ("len", "LEN( V$ )"),
     ("hex", "&HFF"),
